@@ -503,6 +503,36 @@ class AgentSchedulingComponent(rpu.AgentComponent):
 
     # --------------------------------------------------------------------------
     #
+    def _check_slots(self, slots):
+        '''
+        Raise a `ValueError` if the given slots (as supplied by the application)
+        name a node, core or gpu which this scheduler does not manage.
+        '''
+
+        for slot in rpu.convert_slots_to_new(slots):
+
+            node = None
+            for n in self.nodes:
+                if n['index'] == slot['node_index']:
+                    node = n
+                    break
+
+            if node is None:
+                raise ValueError('unknown node %s' % slot['node_index'])
+
+            for core in slot['cores']:
+                if not 0 <= core['index'] < len(node['cores']):
+                    raise ValueError('unknown core %s on node %s'
+                                    % (core['index'], slot['node_index']))
+
+            for gpu in slot['gpus']:
+                if not 0 <= gpu['index'] < len(node['gpus']):
+                    raise ValueError('unknown gpu %s on node %s'
+                                    % (gpu['index'], slot['node_index']))
+
+
+    # --------------------------------------------------------------------------
+    #
     # NOTE: any scheduler implementation which uses a different nodelist
     #       structure MUST overload this method.
     def slot_status(self, msg=None, uid=None):
@@ -978,6 +1008,18 @@ class AgentSchedulingComponent(rpu.AgentComponent):
                 # mark the respective resources as being used, to avoid other
                 # tasks being scheduled onto the same set of resources.
                 if td.get('slots'):
+
+                    # the application may name nodes, cores or gpus which
+                    # this pilot does not have: fail that task (not the
+                    # scheduler), and do so before any part of the placement
+                    # is marked
+                    try:
+                        self._check_slots(td['slots'])
+
+                    except Exception as e:
+                        self._fail_task(task, e,
+                                        '\n'.join(ru.get_exception_trace()))
+                        continue
 
                     self._change_slot_states(td['slots'], rpc.BUSY)
                     self._active_cnt += 1
